@@ -182,6 +182,11 @@ func TestC20(t *testing.T) {
 					if p2 := model.GetArchivePathToDiamond(r, k, st); p2 != p {
 						rep.Violate("C20|diamond-path-builders-disagree", p+" vs "+p2, p)
 					}
+					if final { // canceled is the other terminal state: it shares the final descriptor path
+						if p3 := model.GetArchivePathToDiamond(r, k, model.DiamondCanceled); p3 != p {
+							rep.Violate("C20|diamond-path-builders-disagree|canceled", fmt.Sprintf("state canceled: %s, final path %s", p3, p), p)
+						}
+					}
 					rt("diamond", p, model.ArchivePathComponents{Repo: r, DiamondID: k, ArchiveFileName: fn, IsFinalState: final})
 				})
 			}
